@@ -25,6 +25,7 @@ type VfConn struct {
 	OutAtCloseWrite int
 	Chunk           int            // deliver at most this many bytes per Read (0 = all)
 	OnRead          func(call int) // invoked at the start of every Read
+	EOFWithLast     bool           // the Read that delivers the last byte returns io.EOF with it (as tls.Conn does when close_notify follows the data)
 	reads           int
 }
 
@@ -47,6 +48,9 @@ func (c *VfConn) Read(p []byte) (int, error) {
 	}
 	n := copy(p, c.In[c.pos:])
 	c.pos += n
+	if c.EOFWithLast && c.pos >= len(c.In) {
+		return n, io.EOF
+	}
 	return n, nil
 }
 
